@@ -25,7 +25,7 @@ package kmipserver
 //@ functype kmipserver.Middleware
 //@   params next, ctx, msg
 //@   results r, e
-//@   pure
+//@   modifies holder(ctx).idPlaceholder
 //@   ghost mwCalls = old(mwCalls) + 1
 //@   ghost mwSelf = self
 //@   ghost mwNext = next
@@ -35,23 +35,44 @@ package kmipserver
 //@   ghost mwErr = e
 
 //@ func (*BatchExecutor).handleRequest
-//@   requires exec != nil && req != nil
-//@   pure
+//@   requires execOK(exec) && req != nil && ctx != nil && (0 < len(exec.biMiddlewares) ==> exec.biMiddlewares[0] != nil)
+//@   requires forall j int :: 0 <= j && j < len(req.BatchItem) ==> itemOK(req.BatchItem[j])
+//@   ensures nomw(exec) ==> (rejected(exec, req) ==> r1 != nil && r0 == nil && itemCalls == old(itemCalls))
+//@   ensures !rejected(exec, req) ==> r1 == nil && r0 != nil && isnew(r0) && len(r0.BatchItem) == len(req.BatchItem)
+//@   ensures !rejected(exec, req) ==> r0.Header.BatchCount == req.Header.BatchCount && r0.Header.ProtocolVersion == req.Header.ProtocolVersion
+//@   ensures nomw(exec) ==> (!rejected(exec, req) ==> forall j int :: 0 <= j && j < len(req.BatchItem) ==> r0.BatchItem[j].Operation == req.BatchItem[j].Operation && r0.BatchItem[j].UniqueBatchItemID == req.BatchItem[j].UniqueBatchItemID)
+//@   ensures nomw(exec) ==> (!rejected(exec, req) && !isStop(req) ==> itemCalls == old(itemCalls)+len(req.BatchItem))
+//@   ensures nomw(exec) ==> (!rejected(exec, req) ==> 0 <= itemCalls-old(itemCalls) && itemCalls-old(itemCalls) <= len(req.BatchItem))
+//@   ensures nomw(exec) ==> (!rejected(exec, req) && isStop(req) ==> forall j int :: itemCalls-old(itemCalls) <= j && j < len(req.BatchItem) ==> failed(r0.BatchItem[j]))
+//@   ensures nomw(exec) ==> (!rejected(exec, req) && isStop(req) ==> forall j int :: 0 <= j && j+1 < itemCalls-old(itemCalls) ==> !failed(r0.BatchItem[j]))
+//@   ensures nomw(exec) ==> (!rejected(exec, req) && isStop(req) && itemCalls-old(itemCalls) < len(req.BatchItem) ==> itemCalls-old(itemCalls) >= 1 && failed(r0.BatchItem[itemCalls-old(itemCalls)-1]))
+//@   modifies holder(ctx).idPlaceholder
+//@   ghostmod biCalls, biSelf, biNext, biCtx, biItem, biRet, biErr, itemCalls, itemCtx, itemItem, itemRet, itemErr, handlerCalls
 //@   ghost coreCalls = old(coreCalls) + 1
 //@   ghost coreCtx = ctx
 //@   ghost coreMsg = req
 //@   ghost coreRet = r0
 //@   ghost coreErr = r1
+//@   loop 0 invariant -1 <= rangeindex && rangeindex < len(req.BatchItem)
+//@   loop 0 invariant nomw(exec) ==> (forall j int :: 0 <= j && j <= rangeindex ==> response.BatchItem[j].Operation == req.BatchItem[j].Operation && response.BatchItem[j].UniqueBatchItemID == req.BatchItem[j].UniqueBatchItemID)
+//@   loop 0 invariant nomw(exec) ==> (!stopped ==> itemCalls == old(itemCalls)+rangeindex+1)
+//@   loop 0 invariant nomw(exec) ==> (0 <= itemCalls-old(itemCalls) && itemCalls-old(itemCalls) <= rangeindex+1)
+//@   loop 0 invariant nomw(exec) ==> (stopped ==> errorContinuationOption == kmip.BatchErrorContinuationOptionStop && itemCalls-old(itemCalls) >= 1 && failed(response.BatchItem[itemCalls-old(itemCalls)-1]))
+//@   loop 0 invariant nomw(exec) ==> (stopped ==> forall j int :: itemCalls-old(itemCalls) <= j && j <= rangeindex ==> failed(response.BatchItem[j]))
+//@   loop 0 invariant nomw(exec) ==> (errorContinuationOption == kmip.BatchErrorContinuationOptionStop ==> forall j int :: 0 <= j && j+1 < itemCalls-old(itemCalls) ==> !failed(response.BatchItem[j]))
+//@   loop 0 invariant !stopped && errorContinuationOption == kmip.BatchErrorContinuationOptionStop ==> forall j int :: 0 <= j && j <= rangeindex ==> !failed(response.BatchItem[j])
+//@   loop 0 ghostmod biCalls, biSelf, biNext, biCtx, biItem, biRet, biErr, itemCalls, itemCtx, itemItem, itemRet, itemErr, handlerCalls
 
 // The continuation for stage i of the message chain (built by nextAt).
 //@ func (*BatchExecutor).nextAt$1
-//@   requires exec != nil && rm != nil && 0 <= i && (i < len(exec.middlewares) ==> exec.middlewares[i] != nil)
+//@   requires execOK(exec) && rm != nil && ctx != nil && 0 <= i && (i < len(exec.middlewares) ==> exec.middlewares[i] != nil)
+//@   requires (0 < len(exec.biMiddlewares) ==> exec.biMiddlewares[0] != nil) && (forall j int :: 0 <= j && j < len(rm.BatchItem) ==> itemOK(rm.BatchItem[j]))
 //@   ensures i < len(exec.middlewares) ==> mwCalls == old(mwCalls)+1 && coreCalls == old(coreCalls) && mwSelf == exec.middlewares[i] && mwCtx == ctx && mwMsg == rm && r0 == mwRet && r1 == mwErr
 //@   ensures i < len(exec.middlewares) ==> isclosure(mwNext, "(*BatchExecutor).nextAt$1") && capt(mwNext, "i") == i+1 && capt(mwNext, "exec") == exec
 //@   ensures i >= len(exec.middlewares) ==> mwCalls == old(mwCalls) && coreCalls == old(coreCalls)+1 && coreCtx == ctx && coreMsg == rm && r0 == coreRet && r1 == coreErr
 //@   ensures i == old(i) && exec == old(exec)
-//@   ghostmod mwCalls, mwSelf, mwNext, mwCtx, mwMsg, mwRet, mwErr, coreCalls, coreCtx, coreMsg, coreRet, coreErr
-//@   pure
+//@   ghostmod mwCalls, mwSelf, mwNext, mwCtx, mwMsg, mwRet, mwErr, coreCalls, coreCtx, coreMsg, coreRet, coreErr, biCalls, biSelf, biNext, biCtx, biItem, biRet, biErr, itemCalls, itemCtx, itemItem, itemRet, itemErr, handlerCalls
+//@   modifies holder(ctx).idPlaceholder
 
 // batch-item chain
 //@ ghostvar biCalls int
@@ -67,10 +88,12 @@ package kmipserver
 //@ ghostvar itemRet *kmip.ResponseBatchItem
 //@ ghostvar itemErr error
 
+// (assumption: the item a middleware returns was built during its own execution, e.g. by the inner stages)
 //@ functype kmipserver.BatchItemMiddleware
 //@   params next, ctx, bi
 //@   results r, e
-//@   pure
+//@   ensures r == nil || isnew(r)
+//@   modifies holder(ctx).idPlaceholder
 //@   ghost biCalls = old(biCalls) + 1
 //@   ghost biSelf = self
 //@   ghost biNext = next
@@ -79,26 +102,62 @@ package kmipserver
 //@   ghost biRet = r
 //@   ghost biErr = e
 
-//@ func (*BatchExecutor).executeItem
-//@   requires exec != nil && bi != nil
-//@   ensures resp != nil
+
+//@ func (*BatchExecutor).itemNextAt$1
+//@   requires execOK(exec) && 0 <= i && bi != nil && itemOK(*bi) && ctx != nil && (i < len(exec.biMiddlewares) ==> exec.biMiddlewares[i] != nil)
+//@   ensures i < len(exec.biMiddlewares) ==> biCalls == old(biCalls)+1 && itemCalls == old(itemCalls) && biSelf == exec.biMiddlewares[i] && biCtx == ctx && biItem == bi && r0 == biRet && r1 == biErr
+//@   ensures i < len(exec.biMiddlewares) ==> isclosure(biNext, "(*BatchExecutor).itemNextAt$1") && capt(biNext, "i") == i+1 && capt(biNext, "exec") == exec
+//@   ensures i >= len(exec.biMiddlewares) ==> biCalls == old(biCalls) && itemCalls == old(itemCalls)+1 && itemCtx == ctx && itemItem == bi && r0 == itemRet && r1 == itemErr && r0 != nil
+//@   ensures i >= len(exec.biMiddlewares) ==> r0.Operation == bi.Operation && r0.UniqueBatchItemID == bi.UniqueBatchItemID
+//@   ensures r0 == nil || isnew(r0)
+//@   ensures i == old(i) && exec == old(exec)
+//@   ghostmod biCalls, biSelf, biNext, biCtx, biItem, biRet, biErr, itemCalls, itemCtx, itemItem, itemRet, itemErr, handlerCalls
+//@   modifies holder(ctx).idPlaceholder
+
+//@ func (*BatchExecutor).executeItemWithMiddleware
+//@   requires execOK(exec) && bi != nil && itemOK(*bi) && ctx != nil && (0 < len(exec.biMiddlewares) ==> exec.biMiddlewares[0] != nil)
+//@   ensures len(exec.biMiddlewares) == 0 ==> itemCalls == old(itemCalls)+1 && itemCtx == ctx && itemItem == bi
+//@   ensures len(exec.biMiddlewares) == 0 ==> resp.Operation == bi.Operation && resp.UniqueBatchItemID == bi.UniqueBatchItemID
+//@   ghostmod biCalls, biSelf, biNext, biCtx, biItem, biRet, biErr, itemCalls, itemCtx, itemItem, itemRet, itemErr, handlerCalls
+//@   modifies holder(ctx).idPlaceholder
+
+// ---------------------------------------------------------------------------
+// batch execution (C09), handler containment (C08), placeholder scope (C15)
+
+//@ ghostvar handlerCalls int
+
+//@ spec holder(ctx context.Context) *batchData = dyn(ctxvalue(ctx, ctxBatch), *batchData)
+//@ spec failed(bi kmip.ResponseBatchItem) bool = bi.ResultStatus == kmip.ResultStatusOperationFailed
+//@ spec execOK(exec *BatchExecutor) bool = exec != nil && (forall op kmip.Operation :: mapok(exec.routes, op) ==> mapget(exec.routes, op) != nil)
+//@ spec itemOK(bi kmip.RequestBatchItem) bool = typeis(bi.RequestPayload, *payloads.DiscoverVersionsRequestPayload) ==> dyn(bi.RequestPayload, *payloads.DiscoverVersionsRequestPayload) != nil
+//@ spec rejected(exec *BatchExecutor, req *kmip.RequestMessage) bool = !contains(exec.supportedVersions, req.Header.ProtocolVersion) || req.Header.BatchErrorContinuationOption == kmip.BatchErrorContinuationOptionUndo || int(req.Header.BatchCount) != len(req.BatchItem)
+//@ spec nomw(exec *BatchExecutor) bool = len(exec.biMiddlewares) == 0
+//@ spec isStop(req *kmip.RequestMessage) bool = req.Header.BatchErrorContinuationOption == kmip.BatchErrorContinuationOptionStop
+
+// An arbitrary operation handler: any payload, any error, or a panic; may use the ID placeholder of its request.
+//@ iface kmipserver.OperationHandler.HandleOperation
+//@   recv h
+//@   params ctx, req
+//@   results pl, err
+//@   maypanic
+//@   modifies holder(ctx).idPlaceholder
+//@   ghost handlerCalls = old(handlerCalls) + 1
+
+//@ func (*BatchExecutor).handleDiscover
+//@   requires exec != nil && req != nil
+//@   ensures r0 != nil && isnew(r0)
 //@   pure
+
+// Registered handlers are non-nil; decoded payload pointers are non-nil.
+//@ func (*BatchExecutor).executeItem
+//@   requires execOK(exec) && bi != nil && itemOK(*bi) && ctx != nil
+//@   ensures resp != nil && isnew(resp) && resp.Operation == bi.Operation && resp.UniqueBatchItemID == bi.UniqueBatchItemID
+//@   ensures handlerCalls == old(handlerCalls) || handlerCalls == old(handlerCalls)+1
+//@   ensures bi.MessageExtension != nil && bi.MessageExtension.CriticalityIndicator ==> handlerCalls == old(handlerCalls) && err != nil
+//@   modifies holder(ctx).idPlaceholder
+//@   ghostmod handlerCalls
 //@   ghost itemCalls = old(itemCalls) + 1
 //@   ghost itemCtx = ctx
 //@   ghost itemItem = bi
 //@   ghost itemRet = resp
 //@   ghost itemErr = err
-
-//@ func (*BatchExecutor).itemNextAt$1
-//@   requires exec != nil && 0 <= i && bi != nil && (i < len(exec.biMiddlewares) ==> exec.biMiddlewares[i] != nil)
-//@   ensures i < len(exec.biMiddlewares) ==> biCalls == old(biCalls)+1 && itemCalls == old(itemCalls) && biSelf == exec.biMiddlewares[i] && biCtx == ctx && biItem == bi && r0 == biRet && r1 == biErr
-//@   ensures i < len(exec.biMiddlewares) ==> isclosure(biNext, "(*BatchExecutor).itemNextAt$1") && capt(biNext, "i") == i+1 && capt(biNext, "exec") == exec
-//@   ensures i >= len(exec.biMiddlewares) ==> biCalls == old(biCalls) && itemCalls == old(itemCalls)+1 && itemCtx == ctx && itemItem == bi && r0 == itemRet && r1 == itemErr && r0 != nil
-//@   ensures i == old(i) && exec == old(exec)
-//@   ghostmod biCalls, biSelf, biNext, biCtx, biItem, biRet, biErr, itemCalls, itemCtx, itemItem, itemRet, itemErr
-//@   pure
-
-//@ func (*BatchExecutor).executeItemWithMiddleware
-//@   requires exec != nil && bi != nil && ctx != nil && (0 < len(exec.biMiddlewares) ==> exec.biMiddlewares[0] != nil)
-//@   ensures len(exec.biMiddlewares) == 0 ==> itemCalls == old(itemCalls)+1 && itemCtx == ctx && itemItem == bi
-//@   ghostmod biCalls, biSelf, biNext, biCtx, biItem, biRet, biErr, itemCalls, itemCtx, itemItem, itemRet, itemErr
